@@ -25,7 +25,7 @@ BER_KINDS = ['retag', 'len+1', 'len-1', 'len0', 'len-indef', 'len-huge',
              'drop-node', 'dup-node', 'swap-nodes', 'inject-eoc',
              'len-long-form', 'wrap-constructed', 'retag-indef',
              'retag-indef', 'node-drop-fix', 'node-drop-fix', 'node-dup-fix',
-             'node-swap-fix', 'node-token-fix']
+             'node-swap-fix', 'node-token-fix', 'node-nest-fix']
 TEXT_KINDS = ['text-delete', 'text-dup', 'text-nest', 'text-swapcase',
               'text-number', 'tree-dup', 'tree-dup', 'tree-drop',
               'tree-swap', 'tree-move']
@@ -305,14 +305,18 @@ def _rebuild(data, node, new_tag=None, new_len_bytes=None, new_content=None):
         + bytes(data[node['end']:])
 
 
-def _ber_tree(data, offset, end):
-    """[(tag bytes, children list | content bytes)] of a definite-length
-    encoding; None if it does not parse cleanly."""
+def _ber_tree(data, offset, end, stop_at_eoc=False):
+    """[[tag bytes, children list | content bytes, indefinite?]] of a BER
+    encoding (definite and indefinite lengths); None if it does not parse
+    cleanly.  With stop_at_eoc returns (items, offset after 00 00)."""
 
     items = []
 
     while offset < end:
         start = offset
+
+        if stop_at_eoc and bytes(data[offset:offset + 2]) == b'\x00\x00':
+            return items, offset + 2
 
         try:
             first = data[offset]
@@ -327,19 +331,30 @@ def _ber_tree(data, offset, end):
             tag = bytes(data[start:offset])
             length_byte = data[offset]
             offset += 1
+            length = None
 
-            if length_byte & 0x80:
-                count = length_byte & 0x7f
-
-                if count == 0:
+            if length_byte == 0x80:
+                if not first & 0x20:
                     return None
-
+            elif length_byte & 0x80:
+                count = length_byte & 0x7f
                 length = int.from_bytes(data[offset:offset + count], 'big')
                 offset += count
             else:
                 length = length_byte
         except IndexError:
             return None
+
+        if length is None:
+            inner = _ber_tree(data, offset, end, stop_at_eoc=True)
+
+            if inner is None:
+                return None
+
+            body, offset = inner
+            items.append([tag, body, True])
+
+            continue
 
         if offset + length > end:
             return None
@@ -352,8 +367,11 @@ def _ber_tree(data, offset, end):
         if body is None:
             body = bytes(data[offset:offset + length])
 
-        items.append([tag, body])
+        items.append([tag, body, False])
         offset += length
+
+    if stop_at_eoc:
+        return None     # ran out of data before the end-of-contents octets
 
     return items
 
@@ -361,9 +379,14 @@ def _ber_tree(data, offset, end):
 def _ber_serialise(items):
     out = bytearray()
 
-    for tag, body in items:
+    for item in items:
+        tag, body = item[0], item[1]
         content = _ber_serialise(body) if isinstance(body, list) else body
-        out += tag + encode_length(len(content)) + content
+
+        if len(item) > 2 and item[2]:
+            out += tag + b'\x80' + content + b'\x00\x00'
+        else:
+            out += tag + encode_length(len(content)) + content
 
     return bytes(out)
 
@@ -385,11 +408,24 @@ def mutate_ber_consistent(data, kind, rng):
         if items:
             lists.append(items)
 
-        for _, body in items:
-            if isinstance(body, list):
-                collect(body)
+        for item in items:
+            if isinstance(item[1], list):
+                collect(item[1])
 
     collect(tree)
+
+    if kind == 'node-nest-fix':
+        # An element (typically a primitive string) becomes the only
+        # segment of a constructed element of the same tag, in indefinite
+        # or definite form: valid BER for string types, and nestable.
+        items = rng.choice(lists)
+        index = rng.randrange(len(items))
+        item = items[index]
+        tag = bytes([item[0][0] | 0x20]) + item[0][1:]
+        items[index] = [tag, [item], rng.random() < 0.7]
+
+        return _ber_serialise(tree)
+
     # (Not the outermost list: that would drop the message itself.)
     lists = [items for items in lists if items is not tree] or lists
     items = rng.choice(lists)
